@@ -481,6 +481,34 @@ pub fn run_expiry(ctx: &mut Ctx, mode: Mode) {
         },
     );
     ctx.workers = saved_workers;
+    // forced replies: positions with exactly one legal move (the root loop has a single element, so
+    // the fallback / first-acceptance logic is all there is), every expiry point up to 300
+    run_prop(
+        ctx,
+        if mode == Mode::C07 { "single_legal_move_positions_every_expiry" } else { "info_lines_single_legal_move_positions" },
+        || prop_oneof![placement_checks(), placement_near_mate()],
+        t.pick(12_000, 120_000),
+        move |r, st| {
+            let Some(p) = build_placement(r) else { return Ok(()) };
+            if p.legal_moves().len() != 1 || p.count() > 12 {
+                st.label("recipe_discarded_not_a_forced_reply");
+                return Ok(());
+            }
+            let Ok(case) = make_case(&p, &[]) else { return Ok(()) };
+            st.label("root_with_single_legal_move");
+            st.sample(|| case_json(&p, &[]));
+            expiry_case(&case, 300, &[], mode, st)
+        },
+        |r| {
+            let mut v = match build_placement(r) {
+                Some(p) => case_json(&p, &[]),
+                None => json!({"fen": null}),
+            };
+            v["kmax"] = json!(300);
+            v["deep"] = json!([]);
+            v
+        },
+    );
     if mode == Mode::C07 {
         // Small trees searched very deep: endgames in which the side to move can repeat a position
         // (every other line is cut at once), so that within a few thousand consultations the
